@@ -45,6 +45,7 @@ class Scenario:
         self.nsess = 0
         self.defs = {}           # abstract session -> has f9
         self.closed = set()
+        self.spun = set()        # sessions that were sent a spinning eval
 
     def rid(self, p):
         self.n += 1
@@ -113,6 +114,7 @@ def gen_scenario(rnd, focus):
             sc.eval(d, s, name, op)
             if name in ("L", "LP"):
                 running_loop[s] = True
+                sc.spun.add(s)
             elif rnd.random() < 0.25:
                 # a pipeline: more requests written back to back behind this one, sometimes ended by a close
                 for _ in range(rnd.randint(1, 2)):
@@ -140,10 +142,24 @@ def gen_scenario(rnd, focus):
                 sc.add(d, op, prefix="d")
         else:
             sc.add(d, "frob", s, prefix="u")
-    # make sure nothing is left spinning: interrupt every session twice at the end
+    # make sure nothing is left spinning: interrupt every session twice at the end (the second one right
+    # behind the first in half of the scenarios), then ask every open session for a value: an interrupt
+    # that found nothing to stop must not stop what comes later
+    quick_second = rnd.random() < 0.5
     for s in sessions:
         sc.add(0.3, "interrupt", s, prefix="i")
-        sc.add(0.4, "interrupt", s, prefix="i")
+        sc.add(0.0 if quick_second else 0.4, "interrupt", s, prefix="i")
+    for s in sessions:
+        if s not in sc.closed:
+            sc.eval(rnd.choice([0.0, 0.05, 0.3]), s, "V")
+    # An interrupt that arrives before its session's worker has taken the spinning eval from the queue stops
+    # nothing (the worker clears a stray flag when it dequeues), and on a loaded machine a new session's worker
+    # can take seconds to start: sessions that were given a spinning eval get more interrupts, spread out, so
+    # that the recording does not end with an eval still spinning.  Interrupts that find nothing are harmless.
+    for s in sessions:
+        if s in sc.spun:
+            for d in (1.0, 2.0, 4.0, 8.0):
+                sc.add(d, "interrupt", s, prefix="i")
     return sc
 
 
